@@ -268,6 +268,8 @@ def replay_generic(prop, rep_json, monitors=("budget",)):
             mode=mode, timeout=600)
     if w.get("stream") == "big":
         j = Job("framework.props.bigrun", "replay_big", {"prop": prop, "witness": w}, mode="jit", timeout=600)
+    if w.get("stream") == "big_interp":
+        j = Job("framework.props.bigrun", "replay_big_interp", {"prop": prop, "witness": w}, mode="interp", timeout=900)
     common.run_jobs([j])
     if j.status != "ok":
         print("replay could not run: %s\n%s" % (j.status, j.stderr[-2000:]))
